@@ -55,6 +55,8 @@ func pool() []vegeta.Result {
 		// "has an error text" and "status outside 2xx/3xx" are independent for results observed through the public API
 		{Method: "GET", URL: u1, Code: 200, Latency: time.Millisecond, BytesIn: 3, Error: "unexpected EOF"},
 		{Method: "GET", URL: u1, Code: 404, Latency: time.Millisecond, BytesIn: 9},
+		// a Duration is signed: results merged from other clocks can carry a negative latency, which is summed as it is
+		{Method: "GET", URL: u1, Code: 200, Latency: -1500 * time.Millisecond, BytesIn: 2},
 		{Method: "GET", URL: u1, Code: 0, Latency: time.Millisecond, Error: longErr + ": connection refused"},
 		{Method: "GET", URL: u1, Code: 0, Latency: time.Millisecond, Error: longErr + ": i/o timeout (Client.Timeout exceeded while awaiting headers) \u00e9\u4e16"},
 	}
